@@ -124,6 +124,14 @@ func c08Text(w *rt.W, text string) {
 			fail("subslice-disagrees-or-buffer-written", fmt.Sprint(uint64(gS), " ", eS, " rec=", string(rec)), fmt.Sprint(uint64(got), " ", err))
 		}
 	}
+	{ // the same text in front of spare capacity that holds digits (a shorter record written over a longer one)
+		rec := append(append(make([]byte, 0, len(text)+24), text...), "7216543298765432"...)
+		gS, eS := size.DefaultParser(rec[:len(text)], 0)
+		w.Eval(1)
+		if (eS == nil) != (err == nil) || gS != got {
+			fail("subslice-before-digits-disagrees", fmt.Sprint(uint64(gS), " ", eS), fmt.Sprint(uint64(got), " ", err))
+		}
+	}
 	if (err == nil) != (errB == nil) || got != gotB {
 		fail("string-bytes-disagree", fmt.Sprint(uint64(got), " ", err), fmt.Sprint(uint64(gotB), " ", errB))
 	}
